@@ -6,3 +6,8 @@ claim("C14", "emission-grammar equivalence of sibling generators + alpha-normali
       "Structural: the two Go plugins' codec emitters are walked from the syntax tree under identical guard decisions and must print identical lines; generateFile wiring and file-name expressions must pair; collection helpers must be the same function. Exact for what the property states on the explored decision combinations; not a proof for all combinations.",
       "Trusts go/types callee resolution and protogen.GeneratedFile.P semantics; decisions explored: every arm (quick) / every pair of arms (thorough) with loop lengths 0,1,2.",
       "DESIGN.md 5/C14")
+
+claim("C15", "type-resolved AST rules over the generators: map-range order discipline, ambient-source who-calls, cross-file state inventory",
+      "Structural: every range over a Go map must have an order-insensitive body (collect-then-sort / set building / constant reduction); no clock, randomness, environment, file-system, runtime or unordered-iteration API, goroutine, select or channel op anywhere in the generator packages; no package variable, generator field or Generate-scoped variable is written on the per-file path; the OpenAPI generator is built per service; no address-valued argument is printed. These are necessary conditions for byte-identical, order-independent output; they do not cover nondeterminism inside libopenapi/yaml.",
+      "Trusts that protogen presents descriptors in file order and that libopenapi/yaml render ordered maps in insertion order.",
+      "DESIGN.md 5/C15")
